@@ -173,3 +173,79 @@ def quiet():
 def reset_all():
     PreferredUnits.defaults()
     pb.reset_globals()
+
+
+# ----------------------------------------------------------------------------- M-SCHED
+class YieldInjector:
+    """sys.monitoring LINE tool restricted to files of the repository: at random statement starts inside the library the
+    running thread gives up the GIL (time.sleep(0)).  Per-thread state only (merged by the caller after join); a thread
+    switch is *observed* when a line event runs in a different thread than the previous line event."""
+    TOOL = 4
+
+    def __init__(self, repo_root, probability=0.002, seed=0):
+        import sys
+        import threading
+        self.sys, self.threading = sys, threading
+        self.root = repo_root.rstrip("/") + "/"
+        self.p = probability
+        self.seed = seed
+        self.local = threading.local()
+        self.per_thread = []            # list of per-thread dicts, appended under a lock at first use
+        self.lock = threading.Lock()
+        self.last_thread = None
+
+    def _state(self):
+        st = getattr(self.local, "st", None)
+        if st is None:
+            import random
+            st = {"rng": random.Random(hash((self.seed, self.threading.get_ident())) & 0xFFFFFFFF), "lines": 0, "yields": 0,
+                  "switch_sites": set(), "yield_sites": set()}
+            self.local.st = st
+            with self.lock:
+                self.per_thread.append(st)
+        return st
+
+    def __enter__(self):
+        import time
+        mon = self.sys.monitoring
+        mon.use_tool_id(self.TOOL, "vf-sched")
+        root, me, sleep, get_ident = self.root, self, time.sleep, self.threading.get_ident
+
+        def on_line(code, line):
+            fn = code.co_filename
+            if not fn.startswith(root):
+                return mon.DISABLE
+            st = me._state()
+            st["lines"] += 1
+            tid = get_ident()
+            if me.last_thread != tid:
+                if me.last_thread is not None:
+                    st["switch_sites"].add((fn[len(root):], line))
+                me.last_thread = tid
+            if st["rng"].random() < me.p:
+                st["yields"] += 1
+                st["yield_sites"].add((fn[len(root):], line))
+                sleep(0)
+            return None
+
+        mon.register_callback(self.TOOL, mon.events.LINE, on_line)
+        mon.set_events(self.TOOL, mon.events.LINE)
+        return self
+
+    def __exit__(self, *exc):
+        mon = self.sys.monitoring
+        mon.set_events(self.TOOL, 0)
+        mon.register_callback(self.TOOL, mon.events.LINE, None)
+        mon.free_tool_id(self.TOOL)
+        return False
+
+    def summary(self):
+        sw, ys = set(), set()
+        lines = yields = 0
+        for st in self.per_thread:
+            sw |= st["switch_sites"]
+            ys |= st["yield_sites"]
+            lines += st["lines"]
+            yields += st["yields"]
+        return {"line_events": lines, "yields_injected": yields, "distinct_switch_sites": len(sw), "distinct_yield_sites": len(ys),
+                "threads_seen": len(self.per_thread), "sample_switch_sites": sorted(sw)[:8]}
